@@ -10,6 +10,7 @@ import KcpVerif.Lemmas.SysProgress
 import KcpVerif.Lemmas.SysProgress2
 import KcpVerif.Lemmas.SysDrainCex
 import KcpVerif.Lemmas.SysDrainCons2
+import KcpVerif.Lemmas.SysWedgeRepaired
 /-! C02 — eventual delivery: a healed network always drains the backlog. -/
 namespace KcpVerif.Props
 open KcpVerif KcpVerif.Gen KcpVerif.Kcp KcpVerif.Live
@@ -787,5 +788,20 @@ theorem C02_consistency_any_history (A B : Kcp) (D t0 : Nat) (ndA ndB : Bool) (h
 (the held-back datagram is removed by one `shuffle` and re-inserted by another, the window update is
 dropped by a third) -/
 example : SysC.ConsInit SysC.wedgeA SysC.wedgeB := by decide
+
+/-! ### the wedge regression on the repaired model -/
+
+set_option maxRecDepth 200000 in
+/-- **The repaired system does not wedge on that history.**  The fault history of
+`C02_wedge_forever_prerepair`, event for event, on the repaired model (`SysC.rep1 … repState`): when
+A inputs `[ACK 2, una 2, wnd 0]` the flagged segment 2 is at the head of the send buffer and leaves it
+at once (`snd_una = 3`, send buffer empty), so after the history `WaitSnd = 0` although the window
+update was lost; and a byte written afterwards is admitted, delivered and acknowledged within 49 ms of
+the canonical schedule. -/
+theorem C02_wedge_repaired :
+    SysC.rep2.A.snd_buf = [] ∧ SysC.rep2.A.snd_una = 3 ∧
+    SysC.repState.A.waitSnd = 0 ∧ SysC.repState.got = [0, 1, 2] ∧ SysC.repState.ba = [] ∧
+    SysC.repAfter.A.waitSnd = 0 ∧ SysC.repAfter.got = [0, 1, 2, 3] ∧ SysC.repAfter.now = 1049 := by
+  decide
 
 end KcpVerif.Props
